@@ -98,7 +98,7 @@ def align(mjm, ref, got) -> Tuple[np.ndarray, np.ndarray, List[str]]:
     if k in pos_r:
       ir.append(pos_r[k])
       ig.append(n)
-    elif k[0] == int(mujoco.mjtConstraint.mjCNSTR_EQUALITY) and np.abs(rg["J"][n]).max() < 1e-6:  # zero up to float32 noise (two points of one rigid body: 2e-8)
+    elif k[0] == int(mujoco.mjtConstraint.mjCNSTR_EQUALITY) and (rg["J"][n].size == 0 or np.abs(rg["J"][n]).max() < 1e-6):  # zero up to float32 noise (two points of one rigid body: 2e-8)
       problems.append(f"zero_jacobian_equality row {k} only in MJWarp")
     else:
       problems.append(f"row {k} only in MJWarp")
